@@ -10,6 +10,9 @@ import Mathlib.Algebra.BigOperators.Fin
 import Mathlib.Algebra.Order.BigOperators.Ring.Finset
 import Mathlib.Analysis.SpecialFunctions.Log.Base
 import Mathlib.Analysis.SpecialFunctions.Pow.Real
+import Mathlib.Analysis.SpecialFunctions.Pow.Deriv
+import Mathlib.Analysis.SpecialFunctions.Log.Deriv
+import Mathlib.Analysis.Calculus.Deriv.Slope
 import Mathlib.Tactic.Positivity
 
 set_option linter.unusedSectionVars false
@@ -839,5 +842,96 @@ theorem entropyOf_nil (t : Tab (List σ) ℝ) (h : (t.map (·.2)).sum = 1) :
   simp [this]
 
 end Congr
+
+/-! ### The limits `a → 1` -/
+
+section Limit
+
+theorem hasDerivAt_sum_rpow (l : List ℝ) (hl : ∀ p ∈ l, 0 < p) (x : ℝ) :
+    HasDerivAt (fun a => (l.map (fun p => p ^ a)).sum)
+      (l.map (fun p => p ^ x * Real.log p)).sum x := by
+  induction l with
+  | nil => simpa using hasDerivAt_const x (0 : ℝ)
+  | cons p l ih =>
+    simp only [List.map_cons, List.sum_cons]
+    exact ((Real.hasStrictDerivAt_const_rpow (hl p List.mem_cons_self) x).hasDerivAt).add
+      (ih (fun q hq => hl q (List.mem_cons_of_mem _ hq)))
+
+/-- **Rényi → Shannon**: for a probability vector the Rényi entropy of order `a` tends to the
+Shannon entropy as `a → 1`, `a ≠ 1`. -/
+theorem renyi_tendsto_one (ps : List ℝ) (hnn : ∀ p ∈ ps, 0 ≤ p) (hs : ps.sum = 1) :
+    Filter.Tendsto (fun a => renyiVals realOps (.fin a) ps) (nhdsWithin 1 {1}ᶜ)
+      (nhds (entropyVals (Real.logb 2) ps)) := by
+  set supp := ps.filter (fun p => decide (p ≠ 0)) with hsupp
+  have hpos : ∀ p ∈ supp, 0 < p := by
+    intro p hp
+    rw [hsupp, List.mem_filter] at hp
+    exact lt_of_le_of_ne (hnn p hp.1) (Ne.symm (by simpa using hp.2))
+  have hS1 : (supp.map (fun p => p ^ (1 : ℝ))).sum = 1 := by
+    simp only [Real.rpow_one, List.map_id']
+    rw [← hs, hsupp]
+    have := sum_map_filter_of_zero (fun p : ℝ => decide (p ≠ 0)) id ps
+      (by intro x _ hx; simpa using hx)
+    simpa using this
+  have hd := (hasDerivAt_sum_rpow supp hpos 1).log (by rw [hS1]; exact one_ne_zero)
+  rw [hS1, div_one] at hd
+  have hslope := hasDerivAt_iff_tendsto_slope.mp hd
+  have hlim : (supp.map (fun p => p ^ (1 : ℝ) * Real.log p)).sum
+      = (ps.map (fun p => p * Real.log p)).sum := by
+    simp only [Real.rpow_one]
+    rw [hsupp]
+    apply sum_map_filter_of_zero
+    intro x _ hx
+    have : x = 0 := by simpa using hx
+    rw [this]; simp
+  have ht := (hslope.neg).div_const (Real.log 2)
+  rw [hlim, ← entropyVals_eq_log] at ht
+  refine ht.congr' ?_
+  have h0 : ∀ᶠ a in nhdsWithin (1 : ℝ) {1}ᶜ, a ≠ 0 :=
+    eventually_ne_nhdsWithin one_ne_zero
+  have h1 : ∀ᶠ a in nhdsWithin (1 : ℝ) {1}ᶜ, a ≠ 1 := eventually_mem_nhdsWithin
+  filter_upwards [h0, h1] with a ha0 ha1
+  rw [renyi_fin a ha0 ha1, slope_def_field, hS1, Real.log_one, sub_zero, ← Real.log_div_log]
+  have : (1 : ℝ) - a ≠ 0 := sub_ne_zero.mpr (Ne.symm ha1)
+  have : a - 1 ≠ 0 := sub_ne_zero.mpr ha1
+  field_simp
+  ring
+
+/-- **Tsallis → Shannon (nats)**: for a probability vector the Tsallis entropy of order `q` tends
+to `−Σ p ln p` as `q → 1`, `q ≠ 1`. -/
+theorem tsallis_tendsto_one (ps : List ℝ) (hnn : ∀ p ∈ ps, 0 ≤ p) (hs : ps.sum = 1) :
+    Filter.Tendsto (fun q => tsallisVals realOps q ps) (nhdsWithin 1 {1}ᶜ)
+      (nhds (tsallisVals realOps 1 ps)) := by
+  set supp := ps.filter (fun p => decide (p ≠ 0)) with hsupp
+  have hpos : ∀ p ∈ supp, 0 < p := by
+    intro p hp
+    rw [hsupp, List.mem_filter] at hp
+    exact lt_of_le_of_ne (hnn p hp.1) (Ne.symm (by simpa using hp.2))
+  have hS1 : (supp.map (fun p => p ^ (1 : ℝ))).sum = 1 := by
+    simp only [Real.rpow_one, List.map_id']
+    rw [← hs, hsupp]
+    have := sum_map_filter_of_zero (fun p : ℝ => decide (p ≠ 0)) id ps
+      (by intro x _ hx; simpa using hx)
+    simpa using this
+  have hslope := hasDerivAt_iff_tendsto_slope.mp (hasDerivAt_sum_rpow supp hpos 1)
+  have hlim : (supp.map (fun p => p ^ (1 : ℝ) * Real.log p)).sum
+      = (ps.map (fun p => p * Real.log p)).sum := by
+    simp only [Real.rpow_one]
+    rw [hsupp]
+    apply sum_map_filter_of_zero
+    intro x _ hx
+    have : x = 0 := by simpa using hx
+    rw [this]; simp
+  have ht := hslope.neg
+  rw [hlim, ← tsallis_one] at ht
+  refine ht.congr' ?_
+  have h1 : ∀ᶠ a in nhdsWithin (1 : ℝ) {1}ᶜ, a ≠ 1 := eventually_mem_nhdsWithin
+  filter_upwards [h1] with a ha1
+  rw [tsallis_fin a ha1, slope_def_field, hS1]
+  have : a - 1 ≠ 0 := sub_ne_zero.mpr ha1
+  field_simp
+  ring
+
+end Limit
 
 end Dit.Lemmas.InfoReal
